@@ -67,6 +67,7 @@ GuardOf(e) ==
     [] e.a = "Restart" -> ~up[e.args.r]
     [] e.a = "Elect" -> e.args.n \in meta.isr /\ e.args.n # Leader
     [] e.a = "StaleFetch" -> G_StaleFetch(e.args.f)
+    [] e.a = "AwaitTick" -> G_Tick(e.args.f)
     [] e.a = "ApplyMeta" -> e.args.f \in lagging /\ up[e.args.f]
     [] OTHER -> TRUE
 
@@ -117,7 +118,9 @@ TraceNext ==
              /\ Chk(s.lagging = n.lagging, "I", e, "lagging")
              /\ Chk(s.obs = n.obs, "I", e, "acks")
              /\ Chk(\A r \in R : e.st.pendN[r] = Len(n.pend[r]), "I", e, "pend")
-             /\ Chk(~Skipped(e), "I", e, "skipped")
+             /\ Chk(~Skipped(e) \/ e.res = "skipped:not-in-isr", "I", e, "skipped")
+             \* the real health check decided as the specification's guard does
+             /\ Chk(e.a # "AwaitTick" \/ Skipped(e) \/ e.args.outOfSync = TickOutOfSync(e.args.f), "I", e, "tick-guard")
 
 TraceSpec == TraceInit /\ [][TraceNext]_tvars
 Done == PrintT(<<"DONE", TLCGet("stats").diameter, Len(Trace)>>)
